@@ -25,6 +25,8 @@ LEVEL = "exploration"
 TECHNIQUE = ("deterministic simulation: seeded operation histories against a real FileDescriptor whose OS write "
              "accepts a tape-chosen number of bytes (incl. zero / connection lost); reference model of the byte stream and producer protocol")
 QUICK_RUNS = 50000
+TWIN_P = 0.08   # this share of the runs drives two independent instances of the scenario one after the other (detsim.runner._run_scenario)
+USES_DEPTH = True   # thorough tier: history length bound scales with sim.depth (1..3) beyond the quick tier\'s run indices
 BATCH = 250
 COMPONENTS = {
     "real": ["twisted.internet.abstract.FileDescriptor.write/writeSequence/doWrite/loseConnection/loseWriteConnection",
@@ -508,7 +510,7 @@ def run(sim):
     accept_mode = sim.draw_choice(["all", "generous", "stingy", "limit"], "accept_mode")
     err_w = sim.draw_choice([0, 0, 0, 1, 4], "err_weight")
     h.os_limit = sim.draw_choice([1, 3, 16, 512], "os_limit")
-    nops = sim.draw_int(5, 60, "nops")
+    nops = sim.draw_int(5, 60 * sim.depth, "nops")
     h.big_ok = sim.draw_bool(0.3, "big_ok")
     h.huge_ok = sim.draw_bool(0.04, "huge_ok")
     h.iter_ok = sim.draw_bool(0.3, "iter_ok")
@@ -530,7 +532,7 @@ def run(sim):
 
     after_lost = 0
     for _ in range(nops):
-        sim.step(2000)
+        sim.step(2000 * sim.depth)
         p = h.producer
         ops = [
             ("write", 6),
@@ -570,7 +572,7 @@ def run(sim):
             h.do_unregister()          # the application's producer is finished
             h.invariants()
         while h.reactor.writing and h.connected:
-            sim.step(4000)
+            sim.step(4000 * sim.depth)
             n += 1
             if n > 40:
                 h.flush = True     # from here on the OS accepts everything it is offered
